@@ -63,6 +63,27 @@ Fixpoint tv_eqb (a b : tv) {struct a} : bool :=
   | _, _ => false
   end.
 
+Fixpoint cv_eqb (a b : cv) {struct a} : bool :=
+  match a, b with
+  | CNull, CNull => true
+  | CScalar x, CScalar y => String.eqb x y
+  | CList la, CList lb =>
+      (fix go (la lb : list cv) : bool :=
+         match la, lb with
+         | [], [] => true
+         | x :: ra, y :: rb => cv_eqb x y && go ra rb
+         | _, _ => false
+         end) la lb
+  | CMap ka, CMap kb =>
+      (fix go (ka kb : list (string * cv)) : bool :=
+         match ka, kb with
+         | [], [] => true
+         | (k, x) :: ra, (k', y) :: rb => String.eqb k k' && cv_eqb x y && go ra rb
+         | _, _ => false
+         end) ka kb
+  | _, _ => false
+  end.
+
 Inductive vcase : Type :=
 (* xconfmap.Validate on a synthetic value: the tree as reflect sees it (verdicts = what each
    node's Validate returns), and the flattened error list returned.  [ordered] = the value has
@@ -79,7 +100,10 @@ Inductive vcase : Type :=
 | CDec (paths : bool) (name : string) (v : cv) (obs : list (path * string))
 (* the full loader on the section [m] (canonical scalar values) of component [name] whose factory
    defaults are [d]; observed: the typed configuration after the load, same projection as [d] *)
-| CFaith (name : string) (d : tv) (m : cv) (obs : tv).
+| CFaith (name : string) (d : tv) (m : cv) (obs : tv)
+(* the written settings of a loaded component as typed values (with their opaque flags taken from
+   the types), and the same key paths read from the effective configuration (conf.Marshal) *)
+| CEff (v : ev) (obs : cv).
 
 Definition check_case (c : vcase) : bool :=
   match c with
@@ -104,6 +128,7 @@ Definition check_case (c : vcase) : bool :=
       | None => false
       end
   | CFaith name d m obs => tv_eqb (decode_model name d m) obs
+  | CEff v obs => cv_eqb (encode v) obs
   end.
 
 (* model outputs, for replay files *)
@@ -112,7 +137,8 @@ Inductive vout : Type :=
 | OCfg (cands pcands : list verr) (det : list (path * verr))
 | OPipe (e : option verr)
 | ODec (l : option (list (path * string)))
-| OFaith (v : tv).
+| OFaith (v : tv)
+| OEff (c : cv).
 
 Definition model_out (c : vcase) : vout :=
   match c with
@@ -121,4 +147,5 @@ Definition model_out (c : vcase) : vout :=
   | CPipe p _ => OPipe (pipe_shape_err p)
   | CDec _ name v _ => ODec (option_map (fun t => unused t v) (lookup name schema))
   | CFaith name d m _ => OFaith (decode_model name d m)
+  | CEff v _ => OEff (encode v)
   end.
